@@ -115,6 +115,9 @@ def WriteRequest.fieldUpdater (r : WriteRequest) (resW : Option (List Path)) : U
 inductive ROpt where
   | writableFields (m : Option (List Path))   -- WithWritableFields(mask)
   | writablePaths (ps : List Path)            -- WithWritablePaths(m, paths...) = fieldmaskpb.New or panic
+  /-- WithClock / WithEquivalence / WithMessageEquivalence / WithNoDuplicates / WithRNG /
+  WithIDInterceptor: each assigns ANOTHER field of `config` (clock, equivalence, rng, idInterceptor) -/
+  | other (name : String)
 deriving DecidableEq, Repr, Inhabited
 
 /-- One construction option applied to `config.writableFields`; `none` is the panic of
@@ -122,6 +125,7 @@ deriving DecidableEq, Repr, Inhabited
 def ROpt.apply (S : Schema) (ty : Nat) (w : Out (Option (List Path))) : ROpt → Out (Option (List Path))
   | .writableFields m => w.map (fun _ => m)
   | .writablePaths ps => if isValid S ty ps then w.map (fun _ => some ps) else none
+  | .other _ => w
 
 /-- `computeConfig(opts...).writableFields`: every option assigns the field, the last one wins. -/
 def resourceWritable (S : Schema) (ty : Nat) (opts : List ROpt) : Out (Option (List Path)) :=
